@@ -1,3 +1,5 @@
+import PW.Proofs.NoSignalN
+import Mathlib.Tactic.IntervalCases
 import PW.Props.C01
 import PW.Proofs.SpecLemmas
 import PW.Proofs.Channels
@@ -56,6 +58,27 @@ theorem channel_preserves_positivity {a b ι : Type} [Fintype a] [Fintype b] [De
     (∑ i ∈ s, PW.Channels.emb (K i) * ρ * (PW.Channels.emb (K i))ᴴ).PosSemidef :=
   PW.Channels.kraus_posSemidef s K ρ hρ
 
+/-- **a trace-preserving channel on one subsystem preserves the trace, in a space of any number of
+subsystems**, stated directly on the specification's `krausOn` (Kraus operators with
+`Σ_m Σ_i K_m[i,j]·conj K_m[i,k] = δ_jk` below the cutoff), every dimension list, every joint state. -/
+theorem channel_on_one_subsystem_preserves_trace {R : Type} [CommRing R] [StarRing R]
+    (dims : List Nat) (q : Nat) (hq : q < dims.length) (Ks : List (Tensor R))
+    (hK : ∀ j < dimOf2 dims q, ∀ k < dimOf2 dims q,
+      (Ks.map fun U => ∑ i ∈ Finset.range (dimOf2 dims q), U [i, j] * PW.conj (U [i, k])).sum = if j = k then 1 else 0)
+    (ρ : Tensor R) : trace dims (krausOn dims [q] Ks ρ) = trace dims ρ :=
+  trace_krausOn_single dims q hq Ks hK ρ
+
+/-- non-vacuity: the two basis projectors of a qubit (the dephasing channel) meet the hypothesis -/
+example : let P0 : Tensor ℂ := fun idx => if idx = [0, 0] then 1 else 0
+    let P1 : Tensor ℂ := fun idx => if idx = [1, 1] then 1 else 0
+    ∀ j < dimOf2 [2, 3] 0, ∀ k < dimOf2 [2, 3] 0,
+      ([P0, P1].map fun U => ∑ i ∈ Finset.range (dimOf2 [2, 3] 0), U [i, j] * PW.conj (U [i, k])).sum
+        = if j = k then 1 else 0 := by
+  intro P0 P1 j hj k hk
+  have hd : dimOf2 [2, 3] 0 = 2 := by decide
+  rw [hd] at hj hk ⊢
+  interval_cases j <;> interval_cases k <;> simp [P0, P1, Finset.sum_range_succ, PW.conj_eq_star]
+
 end PW.Props.C06
 
 #print axioms PW.Props.C06.kraus_sum_of_plans
@@ -64,3 +87,4 @@ end PW.Props.C06
 #print axioms PW.Props.C06.envelope_kraus_strings_are_generated_plans
 #print axioms PW.Props.C06.channel_preserves_trace
 #print axioms PW.Props.C06.channel_preserves_positivity
+#print axioms PW.Props.C06.channel_on_one_subsystem_preserves_trace
